@@ -102,7 +102,8 @@ theorem optName_noPanic (w : String) (o : Option Bytes) : NoPanicRes (optName w 
 
 theorem typeName_noPanic : ∀ v : GoVal, NoPanicRes (typeName v)
   | .nil | .bool _ | .int _ _ | .flt _ _ | .str _ | .bytes _ | .mapSlice _ | .keyedMap _ | .range _ _
-  | .nilPtr | .drop _ | .struct _ | .time _ => by rw [typeName]; trivial
+  | .nilPtr | .drop _ | .time _ => by rw [typeName]; trivial
+  | .struct _ => by rw [typeName]; exact optName_noPanic _ _
   | .slice _ _ => by rw [typeName]; exact optName_noPanic _ _
   | .array _ _ => by rw [typeName]; exact optName_noPanic _ _
   | .map k v kvs => by
